@@ -41,25 +41,84 @@ pub mod sos_core { pub type Error = super::CoreError; }
 // travel encoded): unit structs (merge_types).
 #[derive(Default)] pub struct DeviceEvent { pub _p: () }
 #[derive(Default)] pub struct FileEvent { pub _p: () }
-/// binary_stream::futures::{Encodable, Decodable}: only used as bounds here
+/// binary_stream::futures::{Encodable, Decodable}: used as bounds here.  `dec_spec(b)`: what
+/// `decode::<Self>(b)` (crates/core/src/encoding) answers for the bytes `b` — a pure function of
+/// the bytes (None: they do not decode).  Uninterpreted per event type.
 pub trait Encodable {}
-pub trait Decodable {}
-impl Encodable for WriteEvent {} impl Decodable for WriteEvent {}
-impl Encodable for AccountEvent {} impl Decodable for AccountEvent {}
-impl Encodable for DeviceEvent {} impl Decodable for DeviceEvent {}
-impl Encodable for FileEvent {} impl Decodable for FileEvent {}
+pub trait Decodable: Sized { spec fn dec_spec(b: Seq<u8>) -> Option<Self>; }
+impl Encodable for WriteEvent {} impl Decodable for WriteEvent { uninterp spec fn dec_spec(b: Seq<u8>) -> Option<WriteEvent>; }
+impl Encodable for AccountEvent {} impl Decodable for AccountEvent { uninterp spec fn dec_spec(b: Seq<u8>) -> Option<AccountEvent>; }
+impl Encodable for DeviceEvent {} impl Decodable for DeviceEvent { uninterp spec fn dec_spec(b: Seq<u8>) -> Option<DeviceEvent>; }
+impl Encodable for FileEvent {} impl Decodable for FileEvent { uninterp spec fn dec_spec(b: Seq<u8>) -> Option<FileEvent>; }
+/// every row of `p` decodes as an `E`
+pub open spec fn all_decode<E: Decodable>(p: Seq<Rec>) -> bool { forall|i: int| 0 <= i < p.len() ==> (#[trigger] E::dec_spec(p[i].event)) is Some }
+/// the decoded events of the rows `p`, in order (meaningful under `all_decode`)
+pub open spec fn decs<E: Decodable>(p: Seq<Rec>) -> Seq<E> { Seq::new(p.len(), |i: int| E::dec_spec(p[i].event)->Some_0) }
 /// sos_core::crypto::AeadPack, sos_core::VaultCommit (payloads of WriteEvent variants the
 /// code under contract never inspects) — opaque
 #[verifier::external_body] pub struct AeadPack { _p: () }
 #[verifier::external_body] pub struct VaultCommit { _p: () }
-/// sos_vault::Vault — opaque (built by the reducer, handed to `write_vault`)
+/// sos_vault::Vault (built by the reducer, handed to `write_vault`) — opaque; its view: the
+/// header fields the server-side storage calls address (`id`: `Summary::id`, `name`, `flags`) and
+/// everything else (`rest`: cipher, kdf, meta, entries) as one abstract value
 #[verifier::external_body] pub struct Vault { _p: () }
+#[verifier::external_body] pub struct VaultRest { _p: () }
+pub ghost struct VaultV { pub id: VaultId, pub name: Seq<char>, pub flags: VaultFlags, pub rest: VaultRest }
+impl View for Vault { type V = VaultV; uninterp spec fn view(&self) -> VaultV; }
+/// `decode::<Vault>(b)` (crates/vault/src/encoding): None when the bytes do not decode
+pub uninterp spec fn vault_dec(b: Seq<u8>) -> Option<VaultV>;
+/// `Vault::from(vault.header().clone())` (FolderReducer::split, crates/reducers/src/folder.rs:47):
+/// same header, no entries (unit fold [split_head])
+pub uninterp spec fn rest_head(r: VaultRest) -> VaultRest;
+pub open spec fn head_only(v: VaultV) -> VaultV { VaultV { rest: rest_head(v.rest), ..v } }
+/// THE head-only vault a non-empty folder log replays to: `FolderReducer::new().reduce(log)?
+/// .build(false)?` (crates/reducers/src/folder.rs; unit fold [reduce_is_replay]
+/// [build_without_secrets] [build_head_applied]: the CreateVault buffer of the first row with the
+/// last SetVaultName / SetVaultFlags / SetVaultMeta applied) — a function of the rows
+/// (the events are the decoded event bytes of the rows, in order).  Uninterpreted here.
+pub uninterp spec fn vault_of(log: Seq<Rec>) -> VaultV;
 
-/// `Default for CommitProof` (crates/core/src/commit/proof.rs `impl Default`): some fixed
-/// value; only compared against
+// ---- the vault store of the account (C02 / C05: what is PERSISTED besides the logs) -----------
+/// Abstract state of the server-side account storage besides its event logs
+/// (crates/storage/server/src/filesystem.rs layout; database.rs keeps the same data in the
+/// `folders` table): `login`: the identity vault (`paths.identity_vault()` / login folder row),
+/// whose name IS the account name; `vaults`: the stored head-only vault of every folder
+/// (`paths.vault_path(id)` / folder row `id`); `folders`: the key set of the in-memory map of folder
+/// event logs (`self.folders`).
+pub ghost struct ServerV { pub login: Option<VaultV>, pub vaults: Map<VaultId, VaultV>, pub folders: Set<VaultId> }
+/// `VaultWriter::set_vault_flags` / `set_vault_name` on the stored vault `id` (unit vaultfile
+/// [set_flags_view] [set_name_view]: the header field is rewritten, nothing else).  A vault that is not
+/// stored: the file system refuses (Err: no file), the database updates no row (Ok, nothing changes).
+pub open spec fn set_flags(s: ServerV, id: VaultId, f: VaultFlags) -> ServerV {
+    if s.vaults.contains_key(id) { ServerV { vaults: s.vaults.insert(id, VaultV { flags: f, ..s.vaults[id] }), ..s } } else { s }
+}
+pub open spec fn set_name(s: ServerV, id: VaultId, n: Seq<char>) -> ServerV {
+    if s.vaults.contains_key(id) { ServerV { vaults: s.vaults.insert(id, VaultV { name: n, ..s.vaults[id] }), ..s } } else { s }
+}
+/// `rename_account`: the name of the login vault (and the account row) is rewritten
+pub open spec fn set_account_name(s: ServerV, n: Seq<char>) -> ServerV {
+    match s.login { Some(v) => ServerV { login: Some(VaultV { name: n, ..v }), ..s }, None => s }
+}
+/// `import_folder(id, buffer)`: the head of the decoded vault is stored under `id` and the folder has an
+/// in-memory log entry
+pub open spec fn import_vault(s: ServerV, id: VaultId, b: Seq<u8>) -> ServerV {
+    ServerV { vaults: s.vaults.insert(id, head_only(vault_dec(b)->Some_0)), folders: s.folders.insert(id), ..s }
+}
+/// `delete_folder(id)`: vault and log removed from the store, entry removed from the map
+pub open spec fn drop_folder(s: ServerV, id: VaultId) -> ServerV {
+    ServerV { vaults: s.vaults.remove(id), folders: s.folders.remove(id), ..s }
+}
+
+/// `Default for CommitProof` (crates/core/src/commit/proof.rs:206 `impl Default`): zero root, no
+/// proof hashes, length 0, no indices; only compared against
+pub open spec fn default_proof() -> CommitProofV {
+    CommitProofV { root: Seq::new(32, |i: int| 0u8), hashes: Seq::empty(), length: 0, indices: Seq::empty() }
+}
 impl Default for CommitProof {
     #[verifier::external_body]
-    fn default() -> (r: CommitProof) { unimplemented!() }
+    fn default() -> (r: CommitProof)
+        ensures r@ == default_proof(),
+    { unimplemented!() }
 }
 /// `impl PartialEq for CommitProof` (proof.rs:131): root, proof hashes, length and
 /// indices are compared — i.e. the views (text of prelude/log_tree.rs)
@@ -99,8 +158,12 @@ impl TrackedChanges {
     pub fn new_account_events(events: Vec<AccountEvent>) -> (r: core::result::Result<TrackedSet, SyncError>) { unimplemented!() }
     #[verifier::external_body]
     pub fn new_device_records(value: &Patch<DeviceEvent>) -> (r: core::result::Result<TrackedSet, SyncError>) { unimplemented!() }
+    /// `new_file_records` (types.rs:366): `value.into_events::<FileEvent>()?` then `new_file_events`,
+    /// which has no failing path: Err only when a record does not decode
     #[verifier::external_body]
-    pub fn new_file_records(value: &Patch<FileEvent>) -> (r: core::result::Result<TrackedSet, SyncError>) { unimplemented!() }
+    pub fn new_file_records(value: &Patch<FileEvent>) -> (r: core::result::Result<TrackedSet, SyncError>)
+        ensures r.is_err() ==> !all_decode::<FileEvent>(rv(value.0@)),
+    { unimplemented!() }
     /// `add_tracked_folder_changes`: inserts into `self.folders` when not empty
     #[verifier::external_body]
     pub fn add_tracked_folder_changes(&mut self, folder_id: &VaultId, changes: TrackedSet) { unimplemented!() }
@@ -200,6 +263,10 @@ pub open spec fn last_pos(s: Seq<Rec>, c: Seq<u8>) -> int { choose|k: int| is_la
 
 impl<T> BackendEventLog<T> {
     pub uninterp spec fn recs(&self) -> Seq<Rec>;
+    /// ORACLE of the environment (new here, for the "an error has a cause" clauses): whether the
+    /// storage below this handle fails the NEXT appending write made through it (I/O error, SQL
+    /// error).  Uninterpreted; consumed by `patch_unchecked` only, which says: it fails ONLY then.
+    pub uninterp spec fn io_fails(&self) -> bool;
 
     /// `tree()`: the in-memory commit tree holds exactly the commit hashes of the rows
     /// (LOG_INV of C06; log / dblog `inv`) (merge_types)
@@ -226,12 +293,15 @@ impl<T> BackendEventLog<T> {
             },
     { unimplemented!() }
 
-    /// `patch_unchecked(patch)` — log / dblog [append_exact] [failure_changes_nothing]
+    /// `patch_unchecked(patch)` — log / dblog [append_exact] [failure_changes_nothing]; every `?` of
+    /// `apply_records` (crates/filesystem/src/event_log.rs, crates/database/src/event_log.rs) is a
+    /// read / write / SQL error of the storage: Err only when `io_fails()`
     #[verifier::external_body]
     pub fn patch_unchecked(&mut self, patch: &Patch<T>) -> (r: core::result::Result<(), BackendError>)
         ensures
             r.is_ok() ==> final(self).recs() == old(self).recs() + rv(patch.0@),
             r.is_err() ==> final(self).recs() == old(self).recs(),
+            r.is_err() ==> old(self).io_fails(),
     { unimplemented!() }
 
     /// `replace_all_events(diff)` — the SPECIFIED contract, log / dblog [replace_ok]
@@ -283,26 +353,47 @@ impl<'a> DeviceReducer<'a> {
     { unimplemented!() }
 }
 /// sos_reducers::FolderReducer (crates/reducers/src/folder.rs): `new().reduce(log)` replays
-/// the log, `.build(false)` makes the head-only vault.  Reads only.
-pub struct FolderReducer { pub _p: () }
+/// the log, `.build(false)` makes the head-only vault.  Reads only.  `rows()`: the rows that were
+/// replayed into it (unit fold [reduce_reads_clean_prefix] with no `until_commit`: the whole log);
+/// `build(false)` of a non-empty replay is `vault_of` those rows (unit fold [reduce_is_replay]
+/// [build_without_secrets]; an EMPTY replay builds `Vault::default()`, which has a random id).
+#[verifier::external_body]
+pub struct FolderReducer { _p: () }
 impl FolderReducer {
-    pub fn new() -> FolderReducer { FolderReducer { _p: () } }
+    pub uninterp spec fn rows(&self) -> Seq<Rec>;
     #[verifier::external_body]
-    pub fn reduce<T>(self, log: &BackendEventLog<T>) -> (r: core::result::Result<FolderReducer, Error>) { unimplemented!() }
+    pub fn new() -> (r: FolderReducer)
+        ensures r.rows() == Seq::<Rec>::empty(),
+    { unimplemented!() }
     #[verifier::external_body]
-    pub fn build(self, include_secrets: bool) -> (r: core::result::Result<Vault, Error>) { unimplemented!() }
+    pub fn reduce<T>(self, log: &BackendEventLog<T>) -> (r: core::result::Result<FolderReducer, Error>)
+        ensures r matches Ok(x) ==> x.rows() == log.recs(),
+    { unimplemented!() }
+    #[verifier::external_body]
+    pub fn build(self, include_secrets: bool) -> (r: core::result::Result<Vault, Error>)
+        ensures r matches Ok(v) ==> (!include_secrets && self.rows().len() > 0 ==> v@ == vault_of(self.rows())),
+    { unimplemented!() }
 }
 
 // ---- records ---------------------------------------------------------------------------------
 impl EventRecord {
-    /// crates/core/src/events/record.rs `decode_event`: decodes the event bytes
+    /// crates/core/src/events/record.rs:63 `decode_event`: `decode(&self.3)` — decodes the event bytes
     #[verifier::external_body]
-    pub fn decode_event<T: Default + Decodable>(&self) -> (r: core::result::Result<T, CoreError>) { unimplemented!() }
+    pub fn decode_event<T: Default + Decodable>(&self) -> (r: core::result::Result<T, CoreError>)
+        ensures
+            r matches Ok(e) ==> T::dec_spec(self.3@) == Some(e),
+            r is Err ==> T::dec_spec(self.3@) is None,
+    { unimplemented!() }
 }
 impl<T> Patch<T> {
-    /// crates/core/src/events/patch.rs `into_events`: decodes every record
+    /// crates/core/src/events/patch.rs:57 `into_events`: `decode_event` of every record, in order;
+    /// the first one that does not decode is the error
     #[verifier::external_body]
-    pub fn into_events<E: Default + Decodable + Encodable>(&self) -> (r: core::result::Result<Vec<E>, CoreError>) { unimplemented!() }
+    pub fn into_events<E: Default + Decodable + Encodable>(&self) -> (r: core::result::Result<Vec<E>, CoreError>)
+        ensures
+            r matches Ok(v) ==> all_decode::<E>(rv(self.0@)) && v@ == decs::<E>(rv(self.0@)),
+            r is Err ==> !all_decode::<E>(rv(self.0@)),
+    { unimplemented!() }
 }
 
 // ---- storage ---------------------------------------------------------------------------------
@@ -312,53 +403,69 @@ impl<T> Patch<T> {
 /// clones; here they take `&mut self` and lend the lock, so that what is written through
 /// the guard is the storage's new state.  New here: `cache()` — the trusted-device cache
 /// of the server storage (`devices` field; `list_device_keys` of unit `auth` reads it) —
-/// is part of the ghost state so that the accessors can say they leave it alone.
+/// is part of the ghost state so that the accessors can say they leave it alone.  Likewise
+/// `store()`: the vault store and folder map of the server storage (`ServerV`), which no accessor
+/// changes.  `write_fails(t)`: ORACLE of the environment — the next appending write to log `t`
+/// does not go through (the handle cannot be had, or the storage below it fails the write:
+/// `BackendEventLog::io_fails` of the handle that is lent); an accessor fails ONLY then.
 pub trait StorageEventLogs: Sized {
     type Error: core::fmt::Debug + From<CoreError> + From<BackendError> + From<SyncError>;
     spec fn logv(&self, t: EventLogType) -> Seq<Rec>;
     spec fn touched(&self) -> Set<EventLogType>;
     spec fn cache(&self) -> DevicesV;
+    spec fn store(&self) -> ServerV;
+    spec fn write_fails(&self, t: EventLogType) -> bool;
 
     fn identity_log(&mut self) -> (r: core::result::Result<&mut VRwLock<FolderEventLog>, Self::Error>)
         ensures
             final(self).touched() == old(self).touched().insert(EventLogType::Identity), final(self).cache() == old(self).cache(),
             forall|u: EventLogType| u != EventLogType::Identity ==> #[trigger] final(self).logv(u) == old(self).logv(u),
             match r {
-                Ok(l) => l.inner.recs() == old(self).logv(EventLogType::Identity) && final(self).logv(EventLogType::Identity) == final(l).inner.recs(),
-                Err(_) => final(self).logv(EventLogType::Identity) == old(self).logv(EventLogType::Identity),
-            };
+                Ok(l) => l.inner.recs() == old(self).logv(EventLogType::Identity) && final(self).logv(EventLogType::Identity) == final(l).inner.recs()
+                    && l.inner.io_fails() == old(self).write_fails(EventLogType::Identity),
+                Err(_) => final(self).logv(EventLogType::Identity) == old(self).logv(EventLogType::Identity) && old(self).write_fails(EventLogType::Identity),
+            },
+            final(self).store() == old(self).store();
     fn account_log(&mut self) -> (r: core::result::Result<&mut VRwLock<AccountEventLog>, Self::Error>)
         ensures
             final(self).touched() == old(self).touched().insert(EventLogType::Account), final(self).cache() == old(self).cache(),
             forall|u: EventLogType| u != EventLogType::Account ==> #[trigger] final(self).logv(u) == old(self).logv(u),
             match r {
-                Ok(l) => l.inner.recs() == old(self).logv(EventLogType::Account) && final(self).logv(EventLogType::Account) == final(l).inner.recs(),
-                Err(_) => final(self).logv(EventLogType::Account) == old(self).logv(EventLogType::Account),
-            };
+                Ok(l) => l.inner.recs() == old(self).logv(EventLogType::Account) && final(self).logv(EventLogType::Account) == final(l).inner.recs()
+                    && l.inner.io_fails() == old(self).write_fails(EventLogType::Account),
+                Err(_) => final(self).logv(EventLogType::Account) == old(self).logv(EventLogType::Account) && old(self).write_fails(EventLogType::Account),
+            },
+            final(self).store() == old(self).store();
     fn device_log(&mut self) -> (r: core::result::Result<&mut VRwLock<DeviceEventLog>, Self::Error>)
         ensures
             final(self).touched() == old(self).touched().insert(EventLogType::Device), final(self).cache() == old(self).cache(),
             forall|u: EventLogType| u != EventLogType::Device ==> #[trigger] final(self).logv(u) == old(self).logv(u),
             match r {
-                Ok(l) => l.inner.recs() == old(self).logv(EventLogType::Device) && final(self).logv(EventLogType::Device) == final(l).inner.recs(),
-                Err(_) => final(self).logv(EventLogType::Device) == old(self).logv(EventLogType::Device),
-            };
+                Ok(l) => l.inner.recs() == old(self).logv(EventLogType::Device) && final(self).logv(EventLogType::Device) == final(l).inner.recs()
+                    && l.inner.io_fails() == old(self).write_fails(EventLogType::Device),
+                Err(_) => final(self).logv(EventLogType::Device) == old(self).logv(EventLogType::Device) && old(self).write_fails(EventLogType::Device),
+            },
+            final(self).store() == old(self).store();
     fn file_log(&mut self) -> (r: core::result::Result<&mut VRwLock<FileEventLog>, Self::Error>)
         ensures
             final(self).touched() == old(self).touched().insert(EventLogType::Files), final(self).cache() == old(self).cache(),
             forall|u: EventLogType| u != EventLogType::Files ==> #[trigger] final(self).logv(u) == old(self).logv(u),
             match r {
-                Ok(l) => l.inner.recs() == old(self).logv(EventLogType::Files) && final(self).logv(EventLogType::Files) == final(l).inner.recs(),
-                Err(_) => final(self).logv(EventLogType::Files) == old(self).logv(EventLogType::Files),
-            };
+                Ok(l) => l.inner.recs() == old(self).logv(EventLogType::Files) && final(self).logv(EventLogType::Files) == final(l).inner.recs()
+                    && l.inner.io_fails() == old(self).write_fails(EventLogType::Files),
+                Err(_) => final(self).logv(EventLogType::Files) == old(self).logv(EventLogType::Files) && old(self).write_fails(EventLogType::Files),
+            },
+            final(self).store() == old(self).store();
     fn folder_log(&mut self, id: &VaultId) -> (r: core::result::Result<&mut VRwLock<FolderEventLog>, Self::Error>)
         ensures
             final(self).touched() == old(self).touched().insert(EventLogType::Folder(*id)), final(self).cache() == old(self).cache(),
             forall|u: EventLogType| u != EventLogType::Folder(*id) ==> #[trigger] final(self).logv(u) == old(self).logv(u),
             match r {
-                Ok(l) => l.inner.recs() == old(self).logv(EventLogType::Folder(*id)) && final(self).logv(EventLogType::Folder(*id)) == final(l).inner.recs(),
-                Err(_) => final(self).logv(EventLogType::Folder(*id)) == old(self).logv(EventLogType::Folder(*id)),
-            };
+                Ok(l) => l.inner.recs() == old(self).logv(EventLogType::Folder(*id)) && final(self).logv(EventLogType::Folder(*id)) == final(l).inner.recs()
+                    && l.inner.io_fails() == old(self).write_fails(EventLogType::Folder(*id)),
+                Err(_) => final(self).logv(EventLogType::Folder(*id)) == old(self).logv(EventLogType::Folder(*id)) && old(self).write_fails(EventLogType::Folder(*id)),
+            },
+            final(self).store() == old(self).store();
 }
 
 /// the in-memory folder map `HashMap<VaultId, Arc<RwLock<FolderEventLog>>>` of the server
@@ -374,6 +481,7 @@ impl VFolders {
     pub fn get_mut(&mut self, id: &VaultId) -> (r: Option<&mut VRwLock<FolderEventLog>>)
         ensures
             final(self).asked() == old(self).asked().insert(EventLogType::Folder(*id)),
+            final(self).logs().dom() == old(self).logs().dom(),
             match r {
                 Some(l) => old(self).logs().contains_key(*id) && l.inner.recs() == old(self).logs()[*id]
                     && final(self).logs() == old(self).logs().insert(*id, final(l).inner.recs()),
@@ -395,6 +503,8 @@ pub fn vkeys_find_cloned<F: Fn(&VaultId) -> bool>(m: &VFolders, f: F) -> (r: Opt
     ensures
         r matches Some(k) ==> m.logs().contains_key(k) && f.ensures((&k,), true),
         r is None ==> forall|k: VaultId| m.logs().contains_key(k) ==> #[trigger] f.ensures((&k,), false),
+        // the same fact, triggered on the key lookup
+        r is None ==> forall|k: VaultId| #[trigger] m.logs().contains_key(k) ==> f.ensures((&k,), false),
 { unimplemented!() }
 
 /// crate::ServerAccountStorage (crates/storage/server/src/traits.rs), the methods the
@@ -408,12 +518,16 @@ pub trait ServerAccountStorage: StorageEventLogs {
     fn set_devices(&mut self, devices: DeviceSet)
         ensures
             final(self).cache() == devices.dv(), final(self).touched() == old(self).touched(),
-            forall|u: EventLogType| #[trigger] final(self).logv(u) == old(self).logv(u);
+            forall|u: EventLogType| #[trigger] final(self).logv(u) == old(self).logv(u),
+            final(self).store() == old(self).store();
     /// `&self.folders`
     fn folders(&self) -> (r: &VFolders)
-        ensures forall|u: EventLogType| u is Folder && r.logs().contains_key(u->Folder_0) ==> r.logs()[u->Folder_0] == #[trigger] self.logv(u);
+        ensures
+            forall|u: EventLogType| u is Folder && r.logs().contains_key(u->Folder_0) ==> r.logs()[u->Folder_0] == #[trigger] self.logv(u),
+            r.logs().dom() == self.store().folders;
     /// `&mut self.folders`: the folder logs in the map are lent; what is written through the
-    /// map is the storage's new state for those folder logs; nothing else changes
+    /// map is the storage's new state for those folder logs; the key set of the map is the
+    /// `folders` component of the store; nothing else changes
     fn folders_mut(&mut self) -> (r: &mut VFolders)
         ensures
             r.asked() == Set::<EventLogType>::empty(),
@@ -423,42 +537,105 @@ pub trait ServerAccountStorage: StorageEventLogs {
                 else if u is Folder && r.logs().contains_key(u->Folder_0) { Seq::<Rec>::empty() }
                 else { old(self).logv(u) }),
             final(self).touched() == old(self).touched().union(final(r).asked()),
-            final(self).cache() == old(self).cache();
-    /// renames the login folder / account row; no event log is written
-    fn rename_account(&self, name: &str) -> (r: Result<()>);
-    fn write_vault(&self, vault: &Vault) -> (r: Result<()>);
-    fn write_login_vault(&self, vault: &Vault) -> (r: Result<()>);
+            final(self).cache() == old(self).cache(),
+            r.logs().dom() == old(self).store().folders,
+            final(self).store() == (ServerV { folders: final(r).logs().dom(), ..old(self).store() });
+    /// `rename_account` (R9: `&self` in the source; it writes to the vault store, which is ghost
+    /// state of the storage here).  filesystem.rs:225: `VaultFileWriter::new(paths.identity_vault())
+    /// .set_vault_name(name)`; database.rs:268: the same on the login folder row, then the accounts
+    /// row.  Renames the login folder / account row; no event log is written.  On Err the login
+    /// vault may or may not have been renamed.
+    fn rename_account(&mut self, name: &str) -> (r: Result<()>)
+        ensures
+            forall|u: EventLogType| #[trigger] final(self).logv(u) == old(self).logv(u),
+            final(self).touched() == old(self).touched(), final(self).cache() == old(self).cache(),
+            r is Ok ==> final(self).store() == set_account_name(old(self).store(), name@),
+            final(self).store().vaults == old(self).store().vaults && final(self).store().folders == old(self).store().folders;
+    /// `write_vault` (R9: `&self` in the source).  SPECIFIED contract (traits.rs:46 "Write a vault to
+    /// storage"): filesystem.rs:237 `vfs::write(paths.vault_path(vault.id()), encode(vault))` — the
+    /// vault is stored under ITS OWN id; database.rs:307 `update_folder(vault.id(), row)` (an UPDATE:
+    /// a folder row that does not exist is not created).  On Err the entry may be damaged.
+    fn write_vault(&mut self, vault: &Vault) -> (r: Result<()>)
+        ensures
+            forall|u: EventLogType| #[trigger] final(self).logv(u) == old(self).logv(u),
+            final(self).touched() == old(self).touched(), final(self).cache() == old(self).cache(),
+            r is Ok ==> final(self).store() == (ServerV { vaults: old(self).store().vaults.insert(vault@.id, vault@), ..old(self).store() }),
+            final(self).store().login == old(self).store().login && final(self).store().folders == old(self).store().folders,
+            final(self).store().vaults.remove(vault@.id) == old(self).store().vaults.remove(vault@.id);
+    /// `write_login_vault` (R9: `&self` in the source).  filesystem.rs:250
+    /// `vfs::write(paths.identity_vault(), encode(vault))`; database.rs:333 `upsert_login_folder`
+    fn write_login_vault(&mut self, vault: &Vault) -> (r: Result<()>)
+        ensures
+            forall|u: EventLogType| #[trigger] final(self).logv(u) == old(self).logv(u),
+            final(self).touched() == old(self).touched(), final(self).cache() == old(self).cache(),
+            r is Ok ==> final(self).store() == (ServerV { login: Some(vault@), ..old(self).store() }),
+            final(self).store().vaults == old(self).store().vaults && final(self).store().folders == old(self).store().folders;
     /// `read_vault` / `read_login_vault` (traits.rs:44,51): read the stored vault; `&self`, no log is touched
     fn read_vault(&self, folder_id: &VaultId) -> (r: Result<Vault>);
     fn read_login_vault(&self) -> (r: Result<Vault>);
     /// `delete_account` (traits.rs:109): removes the account with all its logs — NO promise is made
-    /// about any log or the cache afterwards (weakest contract)
+    /// about any log, the store or the cache afterwards (weakest contract)
     fn delete_account(&mut self) -> (r: Result<()>);
-    fn set_folder_flags(&self, folder_id: &VaultId, flags: VaultFlags) -> (r: Result<()>);
+    /// `set_folder_flags` (R9: `&self` in the source).  filesystem.rs:281 / database.rs:370:
+    /// `VaultWriter::new(target, folder_id).set_vault_flags(flags)`, see `set_flags`.  On Err the
+    /// stored vault `folder_id` may be damaged.
+    fn set_folder_flags(&mut self, folder_id: &VaultId, flags: VaultFlags) -> (r: Result<()>)
+        ensures
+            forall|u: EventLogType| #[trigger] final(self).logv(u) == old(self).logv(u),
+            final(self).touched() == old(self).touched(), final(self).cache() == old(self).cache(),
+            r is Ok ==> final(self).store() == set_flags(old(self).store(), *folder_id, flags),
+            final(self).store().login == old(self).store().login && final(self).store().folders == old(self).store().folders,
+            final(self).store().vaults.remove(*folder_id) == old(self).store().vaults.remove(*folder_id);
     /// `replace_folder` (R9: `&self` in the source; it rewrites the folder's stored events
     /// through a NEW event-log handle: `FolderEventLog::new_folder(..)`,
-    /// `event_log.replace_all_events(diff)`, reduce + write the vault, returns the handle).
-    /// Contract: that of `replace_all_events` (see there: specified, relative) for the
-    /// folder's log; later steps may fail after the events were replaced.
+    /// `event_log.replace_all_events(diff)`, reduce + build(false) the vault, returns the handle
+    /// and that vault).  Contract: that of `replace_all_events` (see there: specified, relative) for
+    /// the folder's log; later steps may fail after the events were replaced.  The vault that is
+    /// returned is `vault_of` the replaced log (see `FolderReducer`).  Store: filesystem.rs:257 does
+    /// not write it; database.rs:343 also replaces the secret rows of `folder_id`
+    /// (`replace_all_secrets`): only the stored vault `folder_id` may change.
     fn replace_folder(&mut self, folder_id: &VaultId, diff: &FolderDiff) -> (r: Result<(FolderEventLog, Vault)>)
         ensures
             forall|u: EventLogType| u != EventLogType::Folder(*folder_id) ==> #[trigger] final(self).logv(u) == old(self).logv(u),
             final(self).touched() == old(self).touched(), final(self).cache() == old(self).cache(),
             r matches Ok(x) ==> x.0.recs() == rv(diff.patch.0@) && is_head_proof_of(diff.checkpoint@, commits(x.0.recs()))
-                && final(self).logv(EventLogType::Folder(*folder_id)) == rv(diff.patch.0@);
-    /// creates / overwrites the folder `id` from an encoded vault (its log is cleared and refilled)
+                && final(self).logv(EventLogType::Folder(*folder_id)) == rv(diff.patch.0@)
+                && x.1@ == vault_of(x.0.recs()),
+            final(self).store().login == old(self).store().login && final(self).store().folders == old(self).store().folders,
+            final(self).store().vaults.remove(*folder_id) == old(self).store().vaults.remove(*folder_id);
+    /// creates / overwrites the folder `id` from an encoded vault (its log is cleared and refilled).
+    /// filesystem.rs:355 / database.rs:451: `decode(buffer)?`, `FolderReducer::split`, `id != vault.id()`
+    /// is refused (VaultIdentifierMismatch), the head-only vault is written under `id`,
+    /// `create_folder_entry(id)` puts the log into the folder map.  On Err the vault `id` may have been
+    /// written and the entry made.
     fn import_folder(&mut self, id: &VaultId, buffer: &[u8]) -> (r: Result<()>)
         ensures
             forall|u: EventLogType| u != EventLogType::Folder(*id) ==> #[trigger] final(self).logv(u) == old(self).logv(u),
-            final(self).touched() == old(self).touched(), final(self).cache() == old(self).cache();
+            final(self).touched() == old(self).touched(), final(self).cache() == old(self).cache(),
+            r is Ok ==> vault_dec(buffer@) is Some && (vault_dec(buffer@)->Some_0).id == *id
+                && final(self).store() == import_vault(old(self).store(), *id, buffer@),
+            final(self).store().login == old(self).store().login,
+            final(self).store().vaults.remove(*id) == old(self).store().vaults.remove(*id),
+            final(self).store().folders.remove(*id) == old(self).store().folders.remove(*id);
+    /// filesystem.rs:411 / database.rs:537: `VaultWriter::new(target, id).set_vault_name(name)`, see
+    /// `set_name`; no event log is written
     fn rename_folder(&mut self, id: &VaultId, name: &str) -> (r: Result<()>)
         ensures
             forall|u: EventLogType| u != EventLogType::Folder(*id) ==> #[trigger] final(self).logv(u) == old(self).logv(u),
-            final(self).touched() == old(self).touched(), final(self).cache() == old(self).cache();
+            final(self).touched() == old(self).touched(), final(self).cache() == old(self).cache(),
+            r is Ok ==> final(self).store() == set_name(old(self).store(), *id, name@),
+            final(self).store().login == old(self).store().login && final(self).store().folders == old(self).store().folders,
+            final(self).store().vaults.remove(*id) == old(self).store().vaults.remove(*id);
+    /// filesystem.rs:430 / database.rs:508: `remove_vault_file(id)` (vault and event log), then
+    /// `self.folders.remove(id)`.  On Err (a later step: files folder, audit) both may be gone already.
     fn delete_folder(&mut self, id: &VaultId) -> (r: Result<()>)
         ensures
             forall|u: EventLogType| u != EventLogType::Folder(*id) ==> #[trigger] final(self).logv(u) == old(self).logv(u),
-            final(self).touched() == old(self).touched(), final(self).cache() == old(self).cache();
+            final(self).touched() == old(self).touched(), final(self).cache() == old(self).cache(),
+            r is Ok ==> final(self).store() == drop_folder(old(self).store(), *id),
+            final(self).store().login == old(self).store().login,
+            final(self).store().vaults.remove(*id) == old(self).store().vaults.remove(*id),
+            final(self).store().folders.remove(*id) == old(self).store().folders.remove(*id);
 }
 
 /// when does `patch_checked(checkpoint, patch)` on a log with rows `l` apply the patch
